@@ -2,6 +2,7 @@ import Driver.Codec
 import IweModel.Model.Wf
 import IweModel.Model.Squash
 import IweModel.Model.Paths
+import IweModel.Model.Actions
 
 namespace Iwe.GraphOps
 open Iwe Codec
@@ -129,5 +130,42 @@ def searchSort (empty : Bool) (entries : List Sexp) : Except String Sexp := do
     { text := String.ofList (List.replicate l 'a'), rank := r, key := "", root := false, line := i, path := [] }
   let out := Paths.globalSearch paths (es.map fun (_, _, s) => s) empty
   return .list (.atom "order" :: out.map fun sp => natS sp.line)
+
+end Iwe.GraphOps
+
+namespace Iwe.GraphOps
+open Iwe Codec Actions
+
+def changeS : Change → Sexp
+  | .create k => .list [.atom "create", .str k]
+  | .update k md => .list [.atom "update", .str k, exceptS Sexp.str md]
+  | .remove k => .list [.atom "remove", .str k]
+
+def changesS : Except Site (Option (List Change)) → Sexp
+  | .error e => .list [.atom "error", siteS e]
+  | .ok none => .atom "none"
+  | .ok (some cs) => .list (.atom "changes" :: cs.map changeS)
+
+/-- `(graph.actions #ext (import …) (steps …) #key line)`: the actions offered at the block covering
+`line` of note `key`, and what each of them does -/
+def actionsOp (ext : String) (imp steps : List Sexp) (key : String) (line : Nat) : Except String Sexp := do
+  match ← finalGraph ext imp steps with
+  | .error e => return .list [.atom "error", siteS e]
+  | .ok g =>
+    match g.nodeIdAt key line with
+    | .error e => return .list [.atom "error", siteS e]
+    | .ok none => return .list [.atom "actions"]
+    | .ok (some id) =>
+      match offered g id with
+      | .error e => return .list [.atom "error", siteS e]
+      | .ok kinds =>
+        return .list (.atom "actions" :: natS id :: kinds.map fun k => .list [.atom k, changesS (changes g k id)])
+
+/-- `(graph.rename #ext (import …) (steps …) #fromKey <url> #newName)` -/
+def renameOp (ext : String) (imp steps : List Sexp) (fromKey : String) (url : Option String) (newName : String) :
+    Except String Sexp := do
+  match ← finalGraph ext imp steps with
+  | .error e => return .list [.atom "error", siteS e]
+  | .ok g => return changesS (rename g fromKey url newName)
 
 end Iwe.GraphOps
